@@ -279,6 +279,7 @@ type access struct {
 	write, atomic          bool
 	lock, mutex            string // lock: "", "W", "R"
 	esc                    string // "" | return | arg | store | global | send | go | addr | methodvalue
+	depth                  int    // nesting depth of the function literal making the access (0 = the declared function's own body)
 	how                    string
 	ord                    []string
 	line                   int
@@ -407,7 +408,7 @@ func (a *analyzer) emit(fi *fieldInfo, obj string, write, atomic bool, how strin
 	if strings.HasPrefix(how, "escape:") {
 		esc = strings.SplitN(strings.SplitN(how[len("escape:"):], ":", 2)[0], "@", 2)[0]
 	}
-	a.out = append(a.out, access{fn, fi.name, fi.region, obj, write, atomic, lock, mutex, esc, how, append([]string(nil), a.ord...), a.pos(n)})
+	a.out = append(a.out, access{fn, fi.name, fi.region, obj, write, atomic, lock, mutex, esc, strings.Count(a.fn, "$"), how, append([]string(nil), a.ord...), a.pos(n)})
 }
 
 func (a *analyzer) emitSrcs(ss []src, write bool, how string, n ast.Node, unlocked bool) {
@@ -957,7 +958,7 @@ func (a *analyzer) walkCall(call *ast.CallExpr) []src {
 			return nil
 		}
 		if lv := a.localVar(id); lv != nil {
-			a.emitSrcs(a.aliasSrcs(lv), true, "call:func", call, false)
+			a.emitSrcs(a.aliasSrcs(lv), a.cfg.mode != "closures", "call:func", call, false)
 		}
 	}
 	switch f := call.Fun.(type) {
@@ -973,6 +974,12 @@ func (a *analyzer) walkCall(call *ast.CallExpr) []src {
 // callFuncValue: calling a function value runs a body this table does not see; it counts as a write to
 // whatever the closure captured (the field's referent) unless the configuration names it read-only.
 func (a *analyzer) callFuncValue(fi *fieldInfo, call *ast.CallExpr) {
+	if a.cfg.mode == "closures" {
+		// a captured function value of a stage builder is another stage (or a pure helper): whatever state it
+		// has is the state its own builder captured, i.e. another entry of this same table
+		a.emit(fi, "ref", false, false, "call:stage", call, false)
+		return
+	}
 	if a.isReadOnlyCall("func:" + fi.obj.Name()) {
 		a.assumed["func:"+fi.obj.Name()] = true
 		a.emit(fi, "ref", false, false, "call!:func", call, false)
@@ -1086,6 +1093,11 @@ func (a *analyzer) mutates(fn *types.Func) bool {
 		for _, k := range keys {
 			fs := a.w.funcs[k]
 			if strings.HasSuffix(k, suffix) && fs.fd.Recv != nil && strings.Count(k[strings.LastIndex(k, "/")+1:], ".") == 2 {
+				if fo, ok := fs.tp.info.Defs[fs.fd.Name].(*types.Func); ok {
+					if s2, ok := fo.Type().(*types.Signature); ok && (s2.Params().Len() != sig.Params().Len() || s2.Results().Len() != sig.Results().Len()) {
+						continue // same name, different shape: not an implementation of this interface method
+					}
+				}
 				found = true
 				if a.mutatesKey(k) {
 					res = true
@@ -2102,8 +2114,15 @@ func confinedEvidence(c *Ctx, tp *tpkg, typ string) (bool, string) {
 
 // ------------------------------------------------------------------ emission
 
-var accessDirs = []string{"pkg/slicepool", "pkg/logger", "pkg/multiterm", "pkg/aggregation", "pkg/extractor", "pkg/extractor/batchers",
+// packages whose struct types must all carry a sharing class (the others are loaded for the tables of captured
+// stage state and for the "does this method write its receiver" summaries)
+var censusDirs = []string{"pkg/slicepool", "pkg/logger", "pkg/multiterm", "pkg/aggregation", "pkg/extractor", "pkg/extractor/batchers",
 	"pkg/multiterm/termrenderers", "cmd/helpers"}
+
+var accessDirs = []string{"pkg/slicepool", "pkg/logger", "pkg/multiterm", "pkg/aggregation", "pkg/extractor", "pkg/extractor/batchers",
+	"pkg/multiterm/termrenderers", "cmd/helpers", "pkg/expressions/stdlib", "pkg/expressions/funcfile",
+	"pkg/expressions/stdmath", "pkg/multiterm/termscaler", "pkg/multiterm/termformat", "pkg/expressions",
+	"pkg/matchers", "pkg/matchers/fastregex", "pkg/matchers/dissect"}
 
 func leanBool(b bool) string {
 	if b {
@@ -2122,7 +2141,7 @@ func init() {
 		}()
 		var sb strings.Builder
 		sb.WriteString("namespace Rare.Gen.Access\n\n")
-		sb.WriteString("structure Acc where\n  fn : String\n  field : String\n  region : String  -- referent region: fields whose referents may overlap share one\n  obj : String     -- \"var\": the field itself; \"ref\": what a reference-typed field refers to\n  write : Bool\n  atomic : Bool\n  lock : String    -- \"\" none, \"W\" exclusive, \"R\" shared\n  mutex : String   -- which mutex\n  esc : String     -- how the reference leaves the function: \"\" (it does not) return arg store global send go addr methodvalue\n  how : String     -- direct / alias (\"@x\") / append / call:… / escape:…\n  ord : List String  -- roles this access is ordered with (go statement, hand-shake)\n  line : Nat\n  deriving DecidableEq, Repr\n\n")
+		sb.WriteString("structure Acc where\n  fn : String\n  field : String\n  region : String  -- referent region: fields whose referents may overlap share one\n  obj : String     -- \"var\": the field itself; \"ref\": what a reference-typed field refers to\n  write : Bool\n  atomic : Bool\n  lock : String    -- \"\" none, \"W\" exclusive, \"R\" shared\n  mutex : String   -- which mutex\n  esc : String     -- how the reference leaves the function: \"\" (it does not) return arg store global send go addr methodvalue\n  depth : Nat      -- nesting depth of the function literal making the access (0: the declared function's own body)\n  how : String     -- direct / alias (\"@x\") / append / call:… / escape:…\n  ord : List String  -- roles this access is ordered with (go statement, hand-shake)\n  line : Nat\n  deriving DecidableEq, Repr\n\n")
 		sb.WriteString("structure Fld where\n  name : String\n  kind : String    -- value slice map pointer chan func iface mutex sync atomicval\n  deriving DecidableEq, Repr\n\n")
 		w := c.world(accessDirs)
 		type cfgC struct {
@@ -2133,15 +2152,18 @@ func init() {
 		cfgs := []cfgC{
 			{accessCfg{lean: "batcher", dir: "pkg/extractor/batchers", mode: "struct", typ: "Batcher"}, []string{"newBatcher"}, "Batcher (reader goroutines, render goroutine, main)"},
 			{accessCfg{lean: "extractor", dir: "pkg/extractor", mode: "struct", typ: "Extractor",
-				readOnlyCalls: []string{"matchers.Factory.CreateInstance", "extractor.IgnoreSet.IgnoreMatch", "expressions.CompiledKeyBuilder.BuildKey"}},
+				readOnlyCalls: []string{}},
 				[]string{"New"}, "Extractor (workers, closer goroutine, main, render goroutine)"},
 			{accessCfg{lean: "ignoreSet", dir: "pkg/extractor", mode: "struct", typ: "ExpressionIgnoreSet"}, []string{"NewIgnoreExpressions"}, "ExpressionIgnoreSet (shared by all workers)"},
 			{accessCfg{lean: "objectPool", dir: "pkg/slicepool", mode: "struct", typ: "ObjectPool"}, []string{"NewObjectPoolEx", "NewObjectPool"}, "ObjectPool (shared by all workers of one compiled expression)"},
 			{accessCfg{lean: "logger", dir: "pkg/logger", mode: "globals", regions: map[string]string{"logBuffer": "logger"}, retainOK: []string{"log.New"},
 				readOnlyCalls: []string{"func:OsExit"}}, []string{"init"}, "package state of pkg/logger (every goroutine logs)"},
 			{accessCfg{lean: "aggLoop", dir: "cmd/helpers", mode: "locals", typ: "RunAggregationLoop", regions: map[string]string{"aggregator": "aggstate", "writeOutput": "aggstate"},
-				readOnlyCalls: []string{"extractor.Extractor.ReadChan"}}, nil, "variables RunAggregationLoop shares with its ticker goroutine (roles main / go1)"},
+				readOnlyCalls: []string{}}, nil, "variables RunAggregationLoop shares with its ticker goroutine (roles main / go1)"},
 			{accessCfg{lean: "multitermGlobals", dir: "pkg/multiterm", mode: "globals"}, []string{"init"}, "package state of pkg/multiterm (render goroutine and main)"},
+			{accessCfg{lean: "stageState", dir: "pkg/expressions/stdlib", mode: "closures"}, nil, "variables the compiled-expression stages of pkg/expressions/stdlib capture (one closure, run by every worker)"},
+			{accessCfg{lean: "stageStateFuncfile", dir: "pkg/expressions/funcfile", mode: "closures"}, nil, "variables the stages of pkg/expressions/funcfile capture"},
+			{accessCfg{lean: "stdlibGlobals", dir: "pkg/expressions/stdlib", mode: "globals"}, []string{"init"}, "package state of pkg/expressions/stdlib (every worker)"},
 			{accessCfg{lean: "aggregation", dir: "pkg/aggregation", mode: "monitor", typ: "*"}, nil, "aggregator state (monitor: only entered under RunAggregationLoop's outputMutex or after the ticker ended)"},
 			{accessCfg{lean: "multiterm", dir: "pkg/multiterm", mode: "monitor", typ: "*"}, nil, "terminal writers (monitor, as above)"},
 			{accessCfg{lean: "termrenderers", dir: "pkg/multiterm/termrenderers", mode: "monitor", typ: "*"}, nil, "renderers (monitor, as above)"},
@@ -2168,11 +2190,18 @@ func init() {
 				if i == len(a.out)-1 {
 					sep = ""
 				}
-				fmt.Fprintf(&sb, "  ⟨%s, %s, %s, %s, %s, %s, %s, %s, %s, %s, %s, %d⟩%s\n", leanStr(ac.fn), leanStr(ac.field), leanStr(ac.region), leanStr(ac.obj), leanBool(ac.write), leanBool(ac.atomic),
-					leanStr(ac.lock), leanStr(ac.mutex), leanStr(ac.esc), leanStr(ac.how), leanStrList(ac.ord), ac.line, sep)
+				fmt.Fprintf(&sb, "  ⟨%s, %s, %s, %s, %s, %s, %s, %s, %s, %d, %s, %s, %d⟩%s\n", leanStr(ac.fn), leanStr(ac.field), leanStr(ac.region), leanStr(ac.obj), leanBool(ac.write), leanBool(ac.atomic),
+					leanStr(ac.lock), leanStr(ac.mutex), leanStr(ac.esc), ac.depth, leanStr(ac.how), leanStrList(ac.ord), ac.line, sep)
 			}
 			sb.WriteString("]\n\n")
-			fmt.Fprintf(&sb, "/-- constructors of %s: they run before the object is shared (up to their first `go` statement) -/\ndef %sCtors : List String := %s\n\n", cfg.lean, cfg.lean, leanStrList(cfg.ctors))
+			ctorsOut := append([]string(nil), cfg.ctors...)
+			var cc []string
+			for c := range a.closureCtors {
+				cc = append(cc, c)
+			}
+			sort.Strings(cc)
+			ctorsOut = append(ctorsOut, cc...)
+			fmt.Fprintf(&sb, "/-- constructors of %s: they run before the object is shared (up to their first `go` statement) -/\ndef %sCtors : List String := %s\n\n", cfg.lean, cfg.lean, leanStrList(ctorsOut))
 			for k := range a.assumed {
 				assumed = append(assumed, cfg.lean+":"+k)
 			}
@@ -2212,7 +2241,7 @@ func init() {
 		fmt.Fprintf(&sb, "/-- `extractorInstance` values live in one local of one goroutine and never leave it (syntactic check) -/\ndef extractorInstanceConfined : Bool := %s  -- %s\n\n", leanBool(ok), why)
 		sb.WriteString("/-- every struct type of the analysed packages with its sharing class -/\ndef census : List (String × String) := [\n")
 		var rows []string
-		for _, d := range accessDirs {
+		for _, d := range censusDirs {
 			tp := w.pkgs[d]
 			for _, n := range structNames(tp) {
 				k := d + "." + n
